@@ -3,3 +3,5 @@ import SsoModel.Singleflight
 import SsoModel.SfWrappers
 import SsoModel.Caches
 import SsoModel.Validators
+import SsoModel.Prim.Base64
+import SsoModel.Seal
